@@ -165,6 +165,14 @@ fn type_item_sources() -> Vec<String> {
     for ty in one {
         out.push(format!("#[derive(Logos)]\n#[logos(type T = {ty})]\nenum Tok<T> {{\n    #[token(\"x\", |_| todo!())]\n    X(T),\n    #[token(\"y\")]\n    Y,\n}}\n"));
     }
+    // patterns nested far beyond what any recursive pass can take (capture groups, repetitions): rejected or compiled,
+    // but the process survives
+    for depth in [300usize, 20_000, 150_000] {
+        let pat = format!("{}a{}", "(".repeat(depth), ")".repeat(depth));
+        out.push(format!("#[derive(Logos)]\nenum Tok {{\n    #[regex(\"{pat}\")]\n    X,\n    #[token(\"y\")]\n    Y,\n}}\n"));
+        let pat = format!("{}a{}", "(?:".repeat(depth.min(20_000)), "){1,2}".repeat(depth.min(20_000)));
+        out.push(format!("#[derive(Logos)]\nenum Tok {{\n    #[regex(\"{pat}\")]\n    X,\n    #[token(\"y\")]\n    Y,\n}}\n"));
+    }
     let two = [("Vec<U>", "u8"), ("u8", "Vec<T>"), ("Vec<U>", "Vec<T>"), ("U", "T"), ("(U, U)", "Option<T>"), ("&'s U", "&'s str"), ("Box<U>", "Box<U>")];
     for (t, u) in two {
         for swap in [false, true] {
